@@ -463,6 +463,7 @@ func (b *Bucket) UploadFromStreamWithID(ctx context.Context, id interface{}, nam
 	// close stream
 	err = stream.Close()
 	if err != nil {
+		_ = stream.Abort()
 		return err
 	}
 
